@@ -442,6 +442,12 @@ def cmd_replay(prop, path):
         if err:
             log("INFRASTRUCTURE: " + err)
             return 2
+        cause = rr.get("cause") or ""
+        if rr["violated"] and cause.startswith("known:"):
+            kk = [x for x in load_known() if x.get("property") == prop and x.get("status") == "known" and "known:" + x["id"] == cause]
+            if kk:
+                print("KNOWN-FINDING: property=%s %s [%s] (replay %s)" % (prop, kk[0]["what"], kk[0]["id"], path))
+                return 0
         if rr["violated"]:
             print("VIOLATION property=%s replay=%s" % (prop, os.path.abspath(path)))
             print("  cause=%s: %s" % (rr.get("cause"), rr.get("message")))
